@@ -40,6 +40,8 @@ THEOREMS = [
     _T("cnt_end_of_hold", "cnt = M + floor((Ts'-cn)/rate) and |cnt - E| < (number of program segments passed), E = continuous "
        "end of the hold at cnTemp / ramp crossing"),
     _T("cnt_end_of_hold_exact", "hold case: E - |pre| < cnt < E + 2|pre| (within the number of program segments, in seconds)"),
+    _T("cnt_end_of_hold_all", "for EVERY cnTemp with end < cnTemp <= start (well-formed program, durations >= 0) the split exists, "
+       "so the end-of-hold / ramp-crossing estimate applies whenever the trigger lies within t_tot (hin explicit)"),
     _T("kCN_first_step", "k_CN = first step with k*dt >= cnt (= ceil(cnt/dt)), (k_CN-1)*dt < cnt; N+1 (never reached) if no step reaches cnt"),
     _T("kCN_none", "without cnTemp the trigger index is N+1"),
     _T("cn_prefix_identical", "runs with different trigger indices have the same state (all vials, all statistics, remaining "
@@ -49,7 +51,7 @@ THEOREMS = [
        "every dice value in [0,1)"),
     _T("cn_only_then", "for k != k_CN the step is literally the stochastic step (isCN = false)"),
     _T("cn_only_then_law", "... in which a vial nucleates only if its draw is below k_v*V*(T_eq_l-T)^b*dt"),
-    _T("nonvacuous", "hypotheses satisfiable: program with a 10 s hold at the trigger temperature, cnt = 30 = end of the hold",
+    _T("nonvacuous", "every hypothesis set is instantiated: program with a 10 s hold at cnTemp (cnt = 30 = end of the hold, hin, range), a step reaching cnt, a run with a step, a state with a liquid supercooled vial and dice < 1",
        "nonvacuity"),
 ]
 TRUSTED = [
